@@ -107,5 +107,63 @@ def run():
     v1, _ = racecheck.judge([bad], {})
     print("Lin: sequential run %s ; lost update injected -> %s" % (v0[1]["clause"], v1[1]["clause"]))
     ok = ok and v0[1]["clause"] == "ok" and v1[1]["clause"] != "ok"
+    ok = more_bindings() and ok
     print("selftest " + ("ok" if ok else "FAILED"))
     return 0 if ok else 2
+
+
+def more_bindings():
+    """The other trace specifications: one accepted recording each, then one corrupted field."""
+    ok = True
+    # ReadOverlapTrace: data the report asked for is missing from the overlapped answer
+    from . import reportrace
+    recs = reportrace.run_pair("multiget-data/multiget-etag", maxruns=2)
+    res0, _ = tlc.validate_traces("ReadOverlapTrace", "ReadOverlapTrace.cfg", {"recs": recs})
+    bad = copy.deepcopy(recs)
+    first = sorted(bad[0]["got"])[0]
+    bad[0]["got"][first][2] = 0
+    res1, _ = tlc.validate_traces("ReadOverlapTrace", "ReadOverlapTrace.cfg", {"recs": bad})
+    hit = any(v["k"] == "viol" and v["w"] == "data-asked-for-is-missing" for v in res1)
+    print("ReadOverlap: recorded %s ; data dropped from one answer -> %s" % (
+        "accepted" if not [v for v in res0 if v["k"] == "viol"] else "REJECTED", "detected" if hit else "MISSED"))
+    ok = ok and hit and not [v for v in res0 if v["k"] == "viol"]
+    # IndexTrace: a query answer that differs from the history-free evaluation
+    from . import indexdriver as ixd, indexcheck
+    tr = ixd.run_ops([["put", "a", "jan"], ["put", "b", "feb"], ["query", "tJan"], ["query", "fA"]], "store", 1, "tree", tid=1)
+    tr["id"] = 1
+    indexcheck.label(tr)
+    r0, _ = tlc.validate_traces("IndexTrace", "IndexTrace.cfg", {"traces": [copy.deepcopy(tr)]},
+                                constants={"EnabledDevs": tlc.tla_set({})})
+    bad = copy.deepcopy(tr)
+    q = [e for e in bad["events"] if e["op"] == "Query"][-1]
+    q["got"] = q["got"][:-1]
+    indexcheck.label(bad)
+    r1, _ = tlc.validate_traces("IndexTrace", "IndexTrace.cfg", {"traces": [bad]},
+                                constants={"EnabledDevs": tlc.tla_set({})})
+    v0 = [v for r in r0 for v in r["v"] if v["k"] == "viol"]
+    v1 = [v for r in r1 for v in r["v"] if v["k"] == "viol"]
+    print("Index: recorded %s ; one member dropped from an answer -> %s" % (
+        "accepted" if not v0 else "REJECTED", "detected" if v1 else "MISSED"))
+    ok = ok and not v0 and bool(v1)
+    # CrashTrace: a crash image that shows neither the old nor the new state
+    from . import crashdriver as cd, gamma
+    from .alpha import Interner
+    C = Interner()
+    b1 = gamma.ics_event("st-1", "one")
+    b2 = gamma.ics_event("st-1", "two", dtstart="20200107T100000Z", dtend="20200107T120000Z")
+    r = cd.run_op_with_images("tree", [{"t": "put", "n": "a.ics", "data": b1}], {"t": "put", "n": "a.ics", "data": b2}, C)
+    rec = {"id": 1, "kind": "tree", "t": "put", "n": "a.ics", "prior": "one", "opname": "replace", "expect": 0,
+           "pre": r["pre"], "final": r["final"], "oper_error": r["oper_error"],
+           "images": [{"k": im["k"], "gate": im["gate"], "torn": im["torn"], "obs": im["obs"]} for im in r["images"]],
+           "gates": r["gates"], "nevents": r["nevents"], "basekind": "tree"}
+    c0, _ = tlc.validate_traces("CrashTrace", "CrashTrace.cfg", {"ops": [copy.deepcopy(rec)], "locale": []},
+                                constants={"EnabledDevs": tlc.tla_set({})})
+    bad = copy.deepcopy(rec)
+    bad["images"][len(bad["images"]) // 2]["obs"]["vis"]["a.ics"] = 424242
+    c1, _ = tlc.validate_traces("CrashTrace", "CrashTrace.cfg", {"ops": [bad], "locale": []},
+                                constants={"EnabledDevs": tlc.tla_set({})})
+    hit = any(v["clause"] == "neither-old-nor-new" for v in c1)
+    print("Crash: recorded images %s ; one image shows other contents -> %s" % (
+        "accepted" if not c0 else "REJECTED %r" % [v["clause"] for v in c0][:3], "detected" if hit else "MISSED"))
+    ok = ok and not c0 and hit
+    return ok
